@@ -33,7 +33,7 @@ ASSUMPTIONS = [
     'the transition-state dipole of a jump and of its reverse are the same object (stabiliser includes reversal)',
 ]
 
-NETS = ['FCC_O', 'FCC_T', 'FCC_OT', 'BCC_O', 'BCC_T', 'HCP_OT', 'HONEY', 'ROMEGA', 'RUMPLED2', 'WURTZ2', 'P1', 'P1_3', 'PMMM_G', 'P2MM_G', 'OBL3',
+NETS = ['FCC_O', 'FCC_T', 'FCC_OT', 'BCC_O', 'BCC_T', 'HCP_OT', 'HONEY', 'ROMEGA', 'RUMPLED2', 'WURTZ2', 'P1', 'P1_3', 'PMMM_G', 'P2MM_G', 'OBL3', 'TET4I',
         'RECTM', 'HEXM', 'KAGOME', 'POLAR4', 'PM2D']
 H = 1e-4
 FDTOL = 1e-6
